@@ -5,7 +5,7 @@
 From Coq Require Import String.
 From Coq Require Import List NArith Bool.
 From HS Require Import Base.Prelude Model.Value Model.Escape Model.Version Model.Json Model.ZincParse.
-From HS Require Import Proofs.EscapeP Proofs.ZincParseP Proofs.ZincNumP Proofs.ZincDateP Proofs.ZincListP Proofs.ZincGridP Proofs.ZincDictP Proofs.ZincMetaP Proofs.ZincDocP Proofs.ZincNestP Proofs.ZincMultiP Proofs.ZincV2P.
+From HS Require Import Proofs.EscapeP Proofs.ZincParseP Proofs.ZincNumP Proofs.ZincDateP Proofs.ZincListP Proofs.ZincGridP Proofs.ZincDictP Proofs.ZincMetaP Proofs.ZincDocP Proofs.ZincNestP Proofs.ZincMultiP Proofs.ZincV2P Proofs.ZincSpacedP Proofs.ZincListSpP Proofs.ZincNumSpP.
 Import ListNotations.
 Open Scope N_scope.
 
@@ -80,10 +80,52 @@ Theorem C03_nested_grids : forall g mps cols rows rts rest,
   p_scalar (S (S (S g))) true (60 :: 60 :: meta_text mps cols rts ++ 62 :: 62 :: rest) = Some (Ok (meta_grid mps cols rows), rest).
 Proof. exact scalar_inner_grid. Qed.
 
+(* ROWS IN ANY SPELLING: the document theorem again, asking of each row text only that the row rule reads the row's cells
+   from it (row_spelled) - and three families of such spellings: plain rows; rows whose commas carry any number of blanks on
+   either side, with any number of blanks before the line end; rows with EMPTY CELLS, which are nulls; rows ended by CR LF *)
+Theorem C03_whole_document_any_rows : forall g names rows rts,
+  names <> [] -> Forall colname names -> NoDup names ->
+  Forall2 (fun cells rt => length cells = length names /\ row_spelled g cells rt) rows rts ->
+  p_grid (S (S g)) true (header30 ++ join [44] names ++ 10 :: concat rts)
+  = Some (Ok (VGrid V30 [] (map (fun n => (n, [])) names) (map (fun cells => combine names cells) rows)), []).
+Proof. exact grid_reads_any_rows. Qed.
+Theorem C03_row_spellings : forall g,
+  (forall v t vs ts, reads g v t -> Forall2 (reads g) vs ts -> row_spelled g (v :: vs) (join [44] (t :: ts) ++ [10])) /\
+  (forall v t vs its k, readsd g v t -> Forall2 (sp_cell g) vs its -> row_spelled g (v :: vs) (sp_row_text t its k)) /\
+  (forall v t vs ts, celle g v t -> Forall2 (celle g) vs ts -> join [44] (t :: ts) <> [] -> row_spelled g (v :: vs) (join [44] (t :: ts) ++ [10])) /\
+  (forall v t vs ts, reads g v t -> Forall2 (reads g) vs ts -> row_spelled g (v :: vs) (join [44] (t :: ts) ++ [13; 10])).
+Proof. intro g. split; [exact (row_spelled_plain g)|]. split; [exact (row_spelled_spaced g)|]. split; [exact (row_spelled_empty_cells g)|exact (row_spelled_crlf g)]. Qed.
+Example C03_spaced_and_empty :
+  sp_row_text (s_ "1") [(1%nat, 2%nat, s_ """x"""); (0%nat, 1%nat, s_ "T")] 2 = s_ "1 ,  ""x"", T  
+" /\
+  zparse_grid (s_ "ver:""3.0""
+a,b,c
+1 ,  ""x"", T  
+,N,
+") = Ok (VGrid (s_ "3.0") [] [(s_ "a", []); (s_ "b", []); (s_ "c", [])]
+           [[(s_ "a", VNum NkFin (s_ "1") (s_ "1") None); (s_ "b", VStr (s_ "x")); (s_ "c", VBool true)];
+            [(s_ "a", VNull); (s_ "b", VNull); (s_ "c", VNull)]]).
+Proof. split; vm_compute; reflexivity. Qed.
+
 (* number spellings: optional sign, digits, optional fraction, optional exponent e / e+ / e- and digits, optional unit *)
 Theorem C03_number_spellings : forall g ver3 sg ip fp ex u rest, ntok_ok sg ip fp ex u -> delim rest ->
   p_scalar (S g) ver3 (mant sg ip fp ex ++ upt u ++ rest) = Some (Ok (nval sg ip fp ex u), rest).
 Proof. exact scalar_number. Qed.
+(* ... and the spellings the writer never uses: _ separators anywhere after the first digit of a digit run (integer
+   part, fraction, exponent), upper-case E; the value is the text without separators and with a lower-case e *)
+Theorem C03_number_spellings_general : forall g ver3 sg ip fp ex u rest, ntoku_ok sg ip fp ex u -> delim rest ->
+  p_scalar (S g) ver3 (mantu sg ip fp ex ++ upt u ++ rest) = Some (Ok (nvalu sg ip fp ex u), rest).
+Proof. exact scalar_number_u. Qed.
+Example C03_number_spelling_nonvacuous :
+  ntoku_ok true (s_ "1_000") (Some (s_ "5_0")) (Some (69, Some 43, s_ "0_3")) (Some (s_ "kW")) /\
+  mantu true (s_ "1_000") (Some (s_ "5_0")) (Some (69, Some 43, s_ "0_3")) = s_ "-1_000.5_0E+0_3" /\
+  mantn true (s_ "1_000") (Some (s_ "5_0")) (Some (69, Some 43, s_ "0_3")) = s_ "-1000.50e+03".
+Proof.
+  split; [|split; reflexivity].
+  unfold ntoku_ok, udigs, fpu_ok, exu_ok, u_ok, unit_ok. cbn [s_].
+  repeat split; try discriminate; try reflexivity; try (repeat constructor; fail); try (right; reflexivity); try (right; left; reflexivity); try (left; reflexivity).
+Qed.
+
 Theorem C03_date_time_spellings : forall g ver3 rest, delim rest ->
   (forall y m d, valid_date y m d = true -> p_scalar (S g) ver3 (iso_date y m d ++ rest) = Some (Ok (VDate y m d), rest)) /\
   (forall h mi s us, time_ok h mi s us -> p_scalar (S g) ver3 (iso_time h mi s us ++ rest) = Some (Ok (VTime h mi s us), rest)).
@@ -92,6 +134,11 @@ Proof. intros g ver3 rest Hd. split; intros; [apply scalar_date|apply scalar_tim
 Theorem C03_lists : forall g vs ts rest, Forall2 (reads g) vs ts -> delim rest ->
   p_scalar (S (S g)) true (91 :: join [44] ts ++ 93 :: rest) = Some (Ok (VList vs), rest).
 Proof. exact scalar_list. Qed.
+
+(* trailing commas and blanks in lists: [ blanks items (,)? blanks ] *)
+Theorem C03_list_spellings : forall g a v t vs ts tc b rest, readsd g v t -> Forall2 (readsd g) vs ts -> delim rest ->
+  p_scalar (S (S g)) true (91 :: blanks a ++ join [44] (t :: ts) ++ lclose tc b rest) = Some (Ok (VList (v :: vs)), rest).
+Proof. exact scalar_list_spelled. Qed.
 
 Example C03_spellings :
   zparse_scalar true (s_ "1_000") = Ok (VNum NkFin (s_ "1000") (s_ "1000") None) /\
@@ -102,14 +149,18 @@ Example C03_spellings :
 Proof. vm_compute. repeat split; reflexivity. Qed.
 
 Print Assumptions C03_whole_document.
+Print Assumptions C03_whole_document_any_rows.
+Print Assumptions C03_row_spellings.
 Print Assumptions C03_whole_document_with_metadata.
 Print Assumptions C03_whole_document_2_0.
 Print Assumptions C03_documents.
 Print Assumptions C03_dicts.
 Print Assumptions C03_nested_grids.
 Print Assumptions C03_number_spellings.
+Print Assumptions C03_number_spellings_general.
 Print Assumptions C03_date_time_spellings.
 Print Assumptions C03_lists.
+Print Assumptions C03_list_spellings.
 Print Assumptions C03_digit_separators.
 Print Assumptions C03_blanks_around_commas.
 Print Assumptions C03_final_newline_optional.
